@@ -1443,6 +1443,17 @@ handle_null_request(int tun_fd, int dns_fd, struct dnsfd *dns_fds, struct query 
  			}
 			upstream_ok = 0;
 		}
+		else if (up_seq != users[userid].inpacket.seqno && up_frag != 0) {
+			/* Looks like a new packet, but this is not its
+			   beginning: an old duplicate, or we lost track.
+			   The rest of a packet must never be taken for a
+			   whole one. */
+			if (debug >= 1) {
+				fprintf(stderr, "IN   pkt seq# %d, frag %d, dropped: packet does not start with frag 0\n",
+					up_seq, up_frag);
+			}
+			upstream_ok = 0;
+		}
 		else if (up_seq != users[userid].inpacket.seqno) {
 			/* Really new packet has arrived, no recent duplicate */
 			/* Forget any old packet, even if incomplete */
